@@ -5,7 +5,7 @@
 # then applies it to /repo, runs the property's quick check, undoes it, and files everything under seeded/<ID>-<mK>/.
 set -u
 ID=$1; MK=$2; PKG=$3; shift 3
-SRC=/tmp/wt-out/$ID/$MK
+SRC=/tmp/wt-out/${SRCBASE:-$ID}/$MK
 export GOFLAGS=-mod=mod GOPROXY=off GOSUMDB=off GOTOOLCHAIN=local
 WT=/tmp/sv-$ID-$MK
 git -C /repo worktree remove --force $WT 2>/dev/null
@@ -37,8 +37,8 @@ if [ $APPLIES = yes ] && git -C /repo diff --quiet; then
   git -C /repo checkout -- . ; git -C /repo clean -fdq
 fi
 rm -f /verif/replays/*.json /tmp/sv.$$.log
-D=/verif/seeded/$ID-$MK; mkdir -p $D; cp $SRC/patch.diff $D/; rm -rf $D/demo; cp -r $SRC/demo $D/ 2>/dev/null; cp $SRC/README.md $D/AGENT_README.md 2>/dev/null
-echo "RESULT $ID-$MK applies=$APPLIES builds=$BUILDS suite=$SUITE demo_clean=$DEMO_CLEAN demo_mutant=$DEMO_MUT checks: $OUT"
+D=/verif/seeded/$ID-${TAG:-}$MK; mkdir -p $D; cp $SRC/patch.diff $D/; rm -rf $D/demo; cp -r $SRC/demo $D/ 2>/dev/null; cp $SRC/README.md $D/AGENT_README.md 2>/dev/null
+echo "RESULT $ID-${TAG:-}$MK applies=$APPLIES builds=$BUILDS suite=$SUITE demo_clean=$DEMO_CLEAN demo_mutant=$DEMO_MUT checks: $OUT"
 cat > $D/result.txt <<EOT
 applies=$APPLIES builds=$BUILDS suite=$SUITE demo_clean=$DEMO_CLEAN demo_mutant=$DEMO_MUT
 demo: copy demo/* to $PKG/ and run: go test -vet=off -count=1 ./$PKG/ $*
